@@ -2,20 +2,25 @@
 //!
 //!   ty  ::= t | ts | tw | ta | u | h <tag> <n> aty^n ty | p <n> ty^n | o ty | e <n> ty^n | v ty | a | k
 //!         | r <n> ty     (t = String, ts = &'static str, tw = Cow<'static, str>, ta = Arc<str>; r = [T; n])
-//!   aty ::= s:<name> | os:<name> | b:<name> | c | oc | tc | y | py | opy
+//!         | x aty ty     (attribute spreading: `view.add_any_attr(attr)`; value = attribute value, then the view's value)
+//!   aty ::= base | base~<f><c><k>      base ::= s:<name> | os:<name> | b:<name> | c | oc | tc | y | oy | py | opy
+//!           <f> = Rust type of the string value: g String, r &'static str, w Cow<'static, str>, a Arc<str>, o Oco<'static, str>
+//!           <c> = conversion applied before the item is added: n none, c into_cloneable(), x into_cloneable_owned()
+//!           <k> = Rust type of a style property NAME (py / opy): g, r, a
+//!           (the model has ONE string type and no conversions: the suffix is read over by the Lean driver)
 //!   val(t*) = <hex> | <hexbuf>:<start>:<len>  (bytes start..start+len of the buffer; equal buffers are ONE
 //!             interned allocation in the harness, so such values are slices of one buffer)   val(r n ty) = val^n
 //!   val(u) = u           val(p ..) = the component values in order
 //!   val(o ty) = n | s val val(e ..) = <i> val  val(v ty) = <n> val^n   val(a) = ty val
 //!   val(k) = <n> key^n    (decimal keys; the item view is `<li>k{key}</li>`)
 //!   val(h ..) = the attribute values in order, then the child value
-//!   attribute values: s, c, y: <hex>; os, oc: n | s <hex>; b: 0|1; tc: <hex name> 0|1;
+//!   attribute values: s, c, y: <hex>; os, oc, oy: n | s <hex>; b: 0|1; tc: <hex name> 0|1;
 //!                     py: <hex name> <hex value>; opy: <hex name> (n | s <hex>)
 use hx_common::{hex, unhex_str, Rng};
 use std::collections::BTreeSet;
 
 #[derive(Clone, Debug, PartialEq, Eq)]
-pub enum ATy {
+pub enum AKind {
     Str(String),
     OStr(String),
     Bool(String),
@@ -23,8 +28,77 @@ pub enum ATy {
     OCls,
     TCls,
     Sty,
+    /// `Style<Option<_>>`: a whole-value style that can be absent
+    OSty,
     PSty,
     OPSty,
+}
+
+/// the Rust type a string value is given as
+#[derive(Clone, Copy, Debug, PartialEq, Eq)]
+pub enum Form {
+    String,
+    Str,
+    Cow,
+    Arc,
+    Oco,
+}
+
+/// conversion applied to the attribute item before it is added to the element
+#[derive(Clone, Copy, Debug, PartialEq, Eq)]
+pub enum Conv {
+    None,
+    Cloneable,
+    Owned,
+}
+
+#[derive(Clone, Debug, PartialEq, Eq)]
+pub struct ATy {
+    pub kind: AKind,
+    pub form: Form,
+    pub conv: Conv,
+    /// type of the property name of `py` / `opy`
+    pub kform: Form,
+}
+
+impl Form {
+    pub fn letter(self) -> char {
+        match self {
+            Form::String => 'g',
+            Form::Str => 'r',
+            Form::Cow => 'w',
+            Form::Arc => 'a',
+            Form::Oco => 'o',
+        }
+    }
+    pub fn of(c: char) -> Option<Form> {
+        Some(match c {
+            'g' => Form::String,
+            'r' => Form::Str,
+            'w' => Form::Cow,
+            'a' => Form::Arc,
+            'o' => Form::Oco,
+            _ => return None,
+        })
+    }
+}
+
+impl Conv {
+    pub fn letter(self) -> char {
+        match self {
+            Conv::None => 'n',
+            Conv::Cloneable => 'c',
+            Conv::Owned => 'x',
+        }
+    }
+    pub fn of(c: char) -> Option<Conv> {
+        Some(match c {
+            'n' => Conv::None,
+            'c' => Conv::Cloneable,
+            'x' => Conv::Owned,
+            _ => return None,
+        })
+    }
 }
 
 #[derive(Clone, Copy, Debug, PartialEq, Eq)]
@@ -52,6 +126,8 @@ pub enum TyD {
     Vec(Box<TyD>),
     Any,
     Keyed,
+    /// `inner.add_any_attr(attr)`: the attribute is spread over the top-level elements of `inner`
+    Spread(ATy, Box<TyD>),
 }
 
 #[derive(Clone, Debug, PartialEq, Eq)]
@@ -63,6 +139,7 @@ pub enum AVal {
     OCls(Option<String>),
     TCls(String, bool),
     Sty(String),
+    OSty(Option<String>),
     PSty(String, String),
     OPSty(String, Option<String>),
 }
@@ -80,6 +157,7 @@ pub enum ValD {
     Vec(Vec<ValD>),
     Any(TyD, Box<ValD>),
     Keyed(Vec<u32>),
+    Spread(AVal, Box<ValD>),
 }
 
 pub struct Toks<'a> {
@@ -104,32 +182,58 @@ impl<'a> Toks<'a> {
 }
 
 impl ATy {
+    pub fn plain(kind: AKind) -> ATy {
+        ATy { kind, form: Form::String, conv: Conv::None, kform: Form::String }
+    }
+    pub fn is_plain(&self) -> bool {
+        self.form == Form::String && self.conv == Conv::None && self.kform == Form::String
+    }
     pub fn token(&self) -> String {
-        match self {
-            ATy::Str(n) => format!("s:{n}"),
-            ATy::OStr(n) => format!("os:{n}"),
-            ATy::Bool(n) => format!("b:{n}"),
-            ATy::Cls => "c".into(),
-            ATy::OCls => "oc".into(),
-            ATy::TCls => "tc".into(),
-            ATy::Sty => "y".into(),
-            ATy::PSty => "py".into(),
-            ATy::OPSty => "opy".into(),
+        let base = match &self.kind {
+            AKind::Str(n) => format!("s:{n}"),
+            AKind::OStr(n) => format!("os:{n}"),
+            AKind::Bool(n) => format!("b:{n}"),
+            AKind::Cls => "c".into(),
+            AKind::OCls => "oc".into(),
+            AKind::TCls => "tc".into(),
+            AKind::Sty => "y".into(),
+            AKind::OSty => "oy".into(),
+            AKind::PSty => "py".into(),
+            AKind::OPSty => "opy".into(),
+        };
+        if self.is_plain() {
+            base
+        } else {
+            format!("{base}~{}{}{}", self.form.letter(), self.conv.letter(), self.kform.letter())
         }
     }
     pub fn parse(s: &str) -> Option<ATy> {
-        Some(match s.split(':').collect::<Vec<_>>().as_slice() {
-            ["c"] => ATy::Cls,
-            ["oc"] => ATy::OCls,
-            ["tc"] => ATy::TCls,
-            ["y"] => ATy::Sty,
-            ["py"] => ATy::PSty,
-            ["opy"] => ATy::OPSty,
-            ["s", n] => ATy::Str(n.to_string()),
-            ["os", n] => ATy::OStr(n.to_string()),
-            ["b", n] => ATy::Bool(n.to_string()),
+        let (base, suffix) = match s.split_once('~') {
+            Some((b, x)) => (b, Some(x)),
+            None => (s, None),
+        };
+        let kind = match base.split(':').collect::<Vec<_>>().as_slice() {
+            ["c"] => AKind::Cls,
+            ["oc"] => AKind::OCls,
+            ["tc"] => AKind::TCls,
+            ["y"] => AKind::Sty,
+            ["oy"] => AKind::OSty,
+            ["py"] => AKind::PSty,
+            ["opy"] => AKind::OPSty,
+            ["s", n] => AKind::Str(n.to_string()),
+            ["os", n] => AKind::OStr(n.to_string()),
+            ["b", n] => AKind::Bool(n.to_string()),
             _ => return None,
-        })
+        };
+        let mut t = ATy::plain(kind);
+        if let Some(x) = suffix {
+            let cs: Vec<char> = x.chars().collect();
+            let [f, c, k] = cs.as_slice() else { return None };
+            t.form = Form::of(*f)?;
+            t.conv = Conv::of(*c)?;
+            t.kform = Form::of(*k)?;
+        }
+        Some(t)
     }
 }
 
@@ -148,6 +252,11 @@ impl TyD {
             TyD::Unit => out.push("u".into()),
             TyD::Any => out.push("a".into()),
             TyD::Keyed => out.push("k".into()),
+            TyD::Spread(a, t) => {
+                out.push("x".into());
+                out.push(a.token());
+                t.tokens(out);
+            }
             TyD::Elem(tag, ats, c) => {
                 out.push("h".into());
                 out.push(tag.clone());
@@ -195,6 +304,10 @@ impl TyD {
             "u" => TyD::Unit,
             "a" => TyD::Any,
             "k" => TyD::Keyed,
+            "x" => {
+                let a = ATy::parse(t.next()?)?;
+                TyD::Spread(a, Box::new(TyD::parse(t)?))
+            }
             "h" => {
                 let tag = t.next()?.to_string();
                 let n: usize = t.next()?.parse().ok()?;
@@ -226,6 +339,7 @@ impl TyD {
         match self {
             TyD::Text | TyD::TextK(_) | TyD::Unit | TyD::Any | TyD::Keyed => 1,
             TyD::Arr(_, t) => 1 + t.depth(),
+            TyD::Spread(_, t) => t.depth(),
             TyD::Elem(_, _, c) => 1 + c.depth(),
             TyD::Tuple(ts) | TyD::Either(ts) => 1 + ts.iter().map(|t| t.depth()).max().unwrap_or(0),
             TyD::Opt(t) | TyD::Vec(t) => 1 + t.depth(),
@@ -237,7 +351,7 @@ impl TyD {
         match self {
             TyD::TextK(TextKind::Arc) => true,
             TyD::Text | TyD::TextK(_) | TyD::Unit | TyD::Any | TyD::Keyed => false,
-            TyD::Arr(_, t) | TyD::Opt(t) | TyD::Vec(t) => t.has_arc(),
+            TyD::Arr(_, t) | TyD::Opt(t) | TyD::Vec(t) | TyD::Spread(_, t) => t.has_arc(),
             TyD::Elem(_, _, c) => c.has_arc(),
             TyD::Tuple(ts) | TyD::Either(ts) => ts.iter().any(|t| t.has_arc()),
         }
@@ -246,10 +360,104 @@ impl TyD {
         match self {
             TyD::Keyed => true,
             TyD::Text | TyD::TextK(_) | TyD::Unit | TyD::Any => false,
-            TyD::Arr(_, t) => t.has_keyed(),
+            TyD::Arr(_, t) | TyD::Spread(_, t) => t.has_keyed(),
             TyD::Elem(_, _, c) => c.has_keyed(),
             TyD::Tuple(ts) | TyD::Either(ts) => ts.iter().any(|t| t.has_keyed()),
             TyD::Opt(t) | TyD::Vec(t) => t.has_keyed(),
+        }
+    }
+    /// contains an attribute item whose type-erased (`into_cloneable_owned`) Rust type is not the one
+    /// of the plain `String` form: `Oco` values (`CloneableOwned = Oco`, not `Arc<str>`), and
+    /// `style:(name, value)` items with another name / value type (their `CloneableOwned` keeps both
+    /// types).  As the contents of an `AnyView` such a view has another `TypeId` than its `String`
+    /// twin, which the model, with its one string type, cannot tell apart: kept out of `AnyView`
+    pub fn has_oco(&self) -> bool {
+        let a_oco = |a: &ATy| {
+            a.form == Form::Oco
+                || (matches!(a.kind, AKind::PSty | AKind::OPSty) && (a.form != Form::String || a.kform != Form::String))
+        };
+        match self {
+            TyD::Text | TyD::TextK(_) | TyD::Unit | TyD::Any | TyD::Keyed => false,
+            TyD::Arr(_, t) | TyD::Opt(t) | TyD::Vec(t) => t.has_oco(),
+            TyD::Spread(a, t) => a_oco(a) || t.has_oco(),
+            TyD::Elem(_, ats, c) => ats.iter().any(a_oco) || c.has_oco(),
+            TyD::Tuple(ts) | TyD::Either(ts) => ts.iter().any(|t| t.has_oco()),
+        }
+    }
+    /// contains an `AnyView` that receives spread attributes (`AnyViewWithAttrs`).  In the model
+    /// spreading over an `AnyView` reaches the content and the type stays "any view", so `AnyView`
+    /// and `AnyViewWithAttrs` (two Rust types) are one model type: kept out of `AnyView` contents
+    pub fn has_spread_any(&self) -> bool {
+        fn reaches_any(t: &TyD) -> bool {
+            match t {
+                TyD::Any => true,
+                TyD::Text | TyD::TextK(_) | TyD::Unit | TyD::Keyed | TyD::Elem(..) => false,
+                TyD::Arr(_, t) | TyD::Opt(t) | TyD::Vec(t) | TyD::Spread(_, t) => reaches_any(t),
+                TyD::Tuple(ts) | TyD::Either(ts) => ts.iter().any(reaches_any),
+            }
+        }
+        match self {
+            TyD::Text | TyD::TextK(_) | TyD::Unit | TyD::Any | TyD::Keyed => false,
+            TyD::Spread(_, t) => reaches_any(t) || t.has_spread_any(),
+            TyD::Arr(_, t) | TyD::Opt(t) | TyD::Vec(t) => t.has_spread_any(),
+            TyD::Elem(_, _, c) => c.has_spread_any(),
+            TyD::Tuple(ts) | TyD::Either(ts) => ts.iter().any(|t| t.has_spread_any()),
+        }
+    }
+    /// the top-level elements of a value are the same nodes after every rebuild (no `Option` /
+    /// `Either` / `Vec` / `AnyView` above them)
+    pub fn stable_top(&self) -> bool {
+        match self {
+            TyD::Text | TyD::TextK(_) | TyD::Unit | TyD::Elem(..) => true,
+            TyD::Arr(_, t) | TyD::Spread(_, t) => t.stable_top(),
+            TyD::Tuple(ts) => ts.iter().all(|t| t.stable_top()),
+            TyD::Opt(_) | TyD::Either(_) | TyD::Vec(_) | TyD::Any | TyD::Keyed => false,
+        }
+    }
+    /// an upper bound of the number of top-level elements of a value (2 = "several")
+    pub fn max_top_elems(&self) -> usize {
+        match self {
+            TyD::Text | TyD::TextK(_) | TyD::Unit => 0,
+            TyD::Elem(..) => 1,
+            TyD::Any | TyD::Keyed | TyD::Vec(_) => 2,
+            TyD::Arr(n, t) => (n * t.max_top_elems()).min(2),
+            TyD::Opt(t) | TyD::Spread(_, t) => t.max_top_elems(),
+            TyD::Tuple(ts) => ts.iter().map(|t| t.max_top_elems()).sum::<usize>().min(2),
+            TyD::Either(ts) => ts.iter().map(|t| t.max_top_elems()).max().unwrap_or(0),
+        }
+    }
+    /// tags for what the TYPE exercises (string forms, conversions, spreading)
+    pub fn type_tags(&self, out: &mut BTreeSet<String>) {
+        let atag = |a: &ATy, out: &mut BTreeSet<String>| {
+            if a.form != Form::String {
+                out.insert(format!("attr-form-{}", a.form.letter()));
+            }
+            if a.kform != Form::String {
+                out.insert(format!("attr-kform-{}", a.kform.letter()));
+            }
+            match a.conv {
+                Conv::None => {}
+                Conv::Cloneable => {
+                    out.insert("attr-into-cloneable".into());
+                }
+                Conv::Owned => {
+                    out.insert("attr-into-cloneable-owned".into());
+                }
+            }
+        };
+        match self {
+            TyD::Text | TyD::TextK(_) | TyD::Unit | TyD::Any | TyD::Keyed => {}
+            TyD::Arr(_, t) | TyD::Opt(t) | TyD::Vec(t) => t.type_tags(out),
+            TyD::Spread(a, t) => {
+                out.insert(if **t == TyD::Any { "spread-any" } else { "spread" }.into());
+                atag(a, out);
+                t.type_tags(out);
+            }
+            TyD::Elem(_, ats, c) => {
+                ats.iter().for_each(|a| atag(a, out));
+                c.type_tags(out);
+            }
+            TyD::Tuple(ts) | TyD::Either(ts) => ts.iter().for_each(|t| t.type_tags(out)),
         }
     }
 }
@@ -276,7 +484,7 @@ impl AVal {
     pub fn tokens(&self, out: &mut Vec<String>) {
         match self {
             AVal::Str(v) | AVal::Cls(v) | AVal::Sty(v) => out.push(hex(v.as_bytes())),
-            AVal::OStr(v) | AVal::OCls(v) => opt_hex(out, v),
+            AVal::OStr(v) | AVal::OCls(v) | AVal::OSty(v) => opt_hex(out, v),
             AVal::Bool(b) => out.push(if *b { "1" } else { "0" }.into()),
             AVal::TCls(n, b) => {
                 out.push(hex(n.as_bytes()));
@@ -298,22 +506,23 @@ impl AVal {
             "1" => Some(true),
             _ => None,
         };
-        Some(match ty {
-            ATy::Str(_) => AVal::Str(unhex_str(t.next()?)?),
-            ATy::Cls => AVal::Cls(unhex_str(t.next()?)?),
-            ATy::Sty => AVal::Sty(unhex_str(t.next()?)?),
-            ATy::OStr(_) => AVal::OStr(parse_opt_hex(t)?),
-            ATy::OCls => AVal::OCls(parse_opt_hex(t)?),
-            ATy::Bool(_) => AVal::Bool(b(t.next()?)?),
-            ATy::TCls => {
+        Some(match &ty.kind {
+            AKind::Str(_) => AVal::Str(unhex_str(t.next()?)?),
+            AKind::Cls => AVal::Cls(unhex_str(t.next()?)?),
+            AKind::Sty => AVal::Sty(unhex_str(t.next()?)?),
+            AKind::OStr(_) => AVal::OStr(parse_opt_hex(t)?),
+            AKind::OCls => AVal::OCls(parse_opt_hex(t)?),
+            AKind::OSty => AVal::OSty(parse_opt_hex(t)?),
+            AKind::Bool(_) => AVal::Bool(b(t.next()?)?),
+            AKind::TCls => {
                 let n = unhex_str(t.next()?)?;
                 AVal::TCls(n, b(t.next()?)?)
             }
-            ATy::PSty => {
+            AKind::PSty => {
                 let n = unhex_str(t.next()?)?;
                 AVal::PSty(n, unhex_str(t.next()?)?)
             }
-            ATy::OPSty => {
+            AKind::OPSty => {
                 let n = unhex_str(t.next()?)?;
                 AVal::OPSty(n, parse_opt_hex(t)?)
             }
@@ -352,6 +561,10 @@ impl ValD {
             ValD::Keyed(ks) => {
                 out.push(ks.len().to_string());
                 ks.iter().for_each(|k| out.push(k.to_string()));
+            }
+            ValD::Spread(a, v) => {
+                a.tokens(out);
+                v.tokens(out);
             }
         }
     }
@@ -427,6 +640,10 @@ impl ValD {
                 }
                 ValD::Keyed(ks)
             }
+            TyD::Spread(a, ty) => {
+                let av = AVal::parse(a, t)?;
+                ValD::Spread(av, Box::new(ValD::parse(ty, t)?))
+            }
         })
     }
 }
@@ -439,14 +656,19 @@ pub const TEXTS: &[&str] = &[
 ];
 /// buffers that sliced text values point into
 pub const BUFFERS: &[&str] = &["hello world", "aé<b>&amp; x", "ab", " x\ny "];
-pub const CLASSES: &[&str] = &["", "a", "b", "a b", "b a", "a  a", " c ", "on big", "x\ty"];
-pub const TOGGLES: &[&str] = &["a", "b", "c", "on", "é"];
+pub const CLASSES: &[&str] = &["", "a", "b", "a b", "b a", "a  a", " c ", "on big", "x\ty", "A", "a A", "\na "];
+pub const TOGGLES: &[&str] = &["a", "b", "c", "on", "é", "A"];
+/// toggle names that are not ONE class token: padded, inner white space, empty (`classList` rejects
+/// them: InvalidCharacterError / SyntaxError)
+pub const ODD_TOGGLES: &[&str] = &["a ", " a", " a ", "a b", "", "\ta", "on\n", " "];
 pub const STYLES: &[&str] = &[
     "", "color: red;", "color:red", "width: 1px; color: blue", "COLOR: Red", "--x: 1", "junk",
-    "a:b;a:c", "color: red; width: 2px;",
+    "a:b;a:c", "color: red; width: 2px;", " color : red ; ", "--X: 2; --x: 3",
 ];
 pub const PROPS: &[&str] = &["color", "width", "--x", "Color"];
-pub const PVALS: &[&str] = &["red", "blue", "", " 1px ", "0"];
+/// property names with padding / other case / custom-property case variants / empty
+pub const ODD_PROPS: &[&str] = &[" color", "color ", " color ", "COLOR", "WIDTH", "--X", " --x", "", "\twidth"];
+pub const PVALS: &[&str] = &["red", "blue", "", " 1px ", "0", "red ", " red", "RED", "re d", "  "];
 
 pub struct Gen<'a> {
     pub rng: &'a mut Rng,
@@ -454,6 +676,13 @@ pub struct Gen<'a> {
     pub any_tys: &'a [TyD],
     /// keep the attribute-level shapes that are known to interfere out of the values
     pub tame_attrs: bool,
+    /// attributes spread onto an `AnyView` (`AnyViewWithAttrs`) survive a change of the content's
+    /// type / several or changing top-level elements (F-C03-8 repaired); when `false`, an `AnyView`
+    /// that an `add_any_attr` reaches keeps the type of its content, which has at most one
+    /// top-level element, the same node after every rebuild
+    pub spread_any_ok: bool,
+    /// an `add_any_attr` reaches the position being generated
+    pub under_spread: bool,
 }
 
 impl Gen<'_> {
@@ -467,40 +696,50 @@ impl Gen<'_> {
             Some(f(self))
         }
     }
-    fn aval(&mut self, ty: &ATy, prev: Option<&AVal>) -> AVal {
+    pub fn aval(&mut self, ty: &ATy, prev: Option<&AVal>) -> AVal {
         if let Some(p) = prev {
             if self.rng.chance(1, 3) {
                 return p.clone();
             }
         }
-        match ty {
-            ATy::Str(_) => AVal::Str(self.text()),
-            ATy::OStr(_) => AVal::OStr(self.opt(|g| g.text())),
-            ATy::Bool(_) => AVal::Bool(self.rng.chance(1, 2)),
-            ATy::Cls => AVal::Cls(self.rng.pick(CLASSES).to_string()),
-            ATy::OCls => AVal::OCls(self.opt(|g| g.rng.pick(CLASSES).to_string())),
-            ATy::TCls => {
+        match &ty.kind {
+            AKind::Str(_) => AVal::Str(self.text()),
+            AKind::OStr(_) => AVal::OStr(self.opt(|g| g.text())),
+            AKind::Bool(_) => AVal::Bool(self.rng.chance(1, 2)),
+            AKind::Cls => AVal::Cls(self.rng.pick(CLASSES).to_string()),
+            AKind::OCls => AVal::OCls(self.opt(|g| g.rng.pick(CLASSES).to_string())),
+            AKind::TCls => {
                 let name = match prev {
                     Some(AVal::TCls(n, _)) if self.tame_attrs || self.rng.chance(7, 8) => n.clone(),
+                    _ if !self.tame_attrs && self.rng.chance(1, 5) => self.rng.pick(ODD_TOGGLES).to_string(),
                     _ => self.rng.pick(TOGGLES).to_string(),
                 };
                 AVal::TCls(name, self.rng.chance(1, 2))
             }
-            ATy::Sty => AVal::Sty(self.rng.pick(STYLES).to_string()),
-            ATy::PSty => {
+            AKind::Sty => AVal::Sty(self.rng.pick(STYLES).to_string()),
+            AKind::OSty => AVal::OSty(self.opt(|g| g.rng.pick(STYLES).to_string())),
+            AKind::PSty => {
                 let name = match prev {
                     Some(AVal::PSty(n, _)) if self.tame_attrs || self.rng.chance(3, 4) => n.clone(),
-                    _ => self.rng.pick(PROPS).to_string(),
+                    _ => self.prop_name(),
                 };
                 AVal::PSty(name, self.rng.pick(PVALS).to_string())
             }
-            ATy::OPSty => {
+            AKind::OPSty => {
                 let name = match prev {
                     Some(AVal::OPSty(n, _)) if self.tame_attrs || self.rng.chance(3, 4) => n.clone(),
-                    _ => self.rng.pick(PROPS).to_string(),
+                    _ => self.prop_name(),
                 };
                 AVal::OPSty(name, self.opt(|g| g.rng.pick(PVALS).to_string()))
             }
+        }
+    }
+
+    fn prop_name(&mut self) -> String {
+        if self.rng.chance(1, 4) {
+            self.rng.pick(ODD_PROPS).to_string()
+        } else {
+            self.rng.pick(PROPS).to_string()
         }
     }
 
@@ -573,7 +812,10 @@ impl Gen<'_> {
                     .enumerate()
                     .map(|(i, a)| self.aval(a, pa.and_then(|p| p.get(i))))
                     .collect();
-                ValD::Elem(avs, Box::new(self.val(ct, pc, depth.saturating_sub(1))))
+                let under = std::mem::replace(&mut self.under_spread, false);
+                let c = self.val(ct, pc, depth.saturating_sub(1));
+                self.under_spread = under;
+                ValD::Elem(avs, Box::new(c))
             }
             TyD::Tuple(ts) => {
                 let pv = match prev {
@@ -629,11 +871,15 @@ impl Gen<'_> {
                     Some(ValD::Any(t, v)) => (Some(t), Some(&**v)),
                     _ => (None, None),
                 };
+                let restricted = self.under_spread && !self.spread_any_ok;
                 let ty = match pt {
-                    Some(t) if self.rng.chance(1, 2) => t.clone(),
+                    Some(t) if restricted || self.rng.chance(1, 2) => t.clone(),
                     _ => {
-                        let fits: Vec<&TyD> =
-                            self.any_tys.iter().filter(|t| t.depth() <= depth.max(1)).collect();
+                        let fits: Vec<&TyD> = self
+                            .any_tys
+                            .iter()
+                            .filter(|t| t.depth() <= depth.max(1) && (!restricted || (t.max_top_elems() <= 1 && t.stable_top())))
+                            .collect();
                         if fits.is_empty() {
                             TyD::Text
                         } else {
@@ -642,8 +888,21 @@ impl Gen<'_> {
                     }
                 };
                 let p = if Some(&ty) == pt { pv } else { None };
+                let under = std::mem::replace(&mut self.under_spread, false);
                 let v = self.val(&ty, p, depth.saturating_sub(1));
+                self.under_spread = under;
                 ValD::Any(ty, Box::new(v))
+            }
+            TyD::Spread(a, t) => {
+                let (pa, pv) = match prev {
+                    Some(ValD::Spread(a, v)) => (Some(a), Some(&**v)),
+                    _ => (None, None),
+                };
+                let av = self.aval(a, pa);
+                let under = std::mem::replace(&mut self.under_spread, true);
+                let v = self.val(t, pv, depth);
+                self.under_spread = under;
+                ValD::Spread(av, Box::new(v))
             }
             TyD::Keyed => {
                 let pk: &[u32] = match prev {
@@ -690,6 +949,18 @@ impl Gen<'_> {
 
 // ------------------------------------------------------------------------------------ tags
 
+fn prop_name_tags(n: &str, m: &str, out: &mut BTreeSet<String>) {
+    if m.trim() != m {
+        out.insert("prop-name-padded".into());
+    }
+    if m.trim().is_empty() {
+        out.insert("prop-name-empty".into());
+    }
+    if n != m && n.trim().eq_ignore_ascii_case(m.trim()) {
+        out.insert("prop-rename-same-normalised".into());
+    }
+}
+
 fn atags(a: &AVal, b: &AVal, out: &mut BTreeSet<String>) {
     let t = match (a, b) {
         (AVal::Str(x), AVal::Str(y)) => if x == y { "attr-same" } else { "attr-change" },
@@ -706,6 +977,13 @@ fn atags(a: &AVal, b: &AVal, out: &mut BTreeSet<String>) {
         },
         (AVal::Cls(x), AVal::Cls(y)) => if x == y { "class-same" } else { "class-change" },
         (AVal::TCls(n, x), AVal::TCls(m, y)) => {
+            let one_token = |s: &str| !s.is_empty() && !s.contains(|c: char| c.is_ascii_whitespace());
+            if !one_token(m) {
+                out.insert(if m.trim() != m.as_str() && one_token(m.trim()) { "toggle-name-padded" } else { "toggle-name-invalid" }.into());
+            }
+            if n != m && n.trim() == m.trim() {
+                out.insert("toggle-name-same-trimmed".into());
+            }
             if n != m {
                 "class-toggle-rename"
             } else if x != y {
@@ -715,7 +993,14 @@ fn atags(a: &AVal, b: &AVal, out: &mut BTreeSet<String>) {
             }
         }
         (AVal::Sty(x), AVal::Sty(y)) => if x == y { "style-same" } else { "style-change" },
+        (AVal::OSty(x), AVal::OSty(y)) => match (x, y) {
+            (Some(_), None) => "style-remove",
+            (None, Some(_)) => "style-add",
+            (None, None) => "style-absent",
+            (Some(x), Some(y)) => if x == y { "style-same" } else { "style-change" },
+        },
         (AVal::PSty(n, x), AVal::PSty(m, y)) => {
+            prop_name_tags(n, m, out);
             if n != m {
                 "style-prop-rename"
             } else if x != y {
@@ -725,6 +1010,7 @@ fn atags(a: &AVal, b: &AVal, out: &mut BTreeSet<String>) {
             }
         }
         (AVal::OPSty(n, x), AVal::OPSty(m, y)) => {
+            prop_name_tags(n, m, out);
             if n != m {
                 "style-prop-rename"
             } else {
@@ -753,7 +1039,7 @@ pub fn text_of(v: &ValD) -> Option<String> {
 pub fn nodeless(v: &ValD) -> bool {
     match v {
         ValD::Tuple(vs) => vs.iter().all(nodeless),
-        ValD::Opt(Some(v)) | ValD::Either(_, v) | ValD::Any(_, v) => nodeless(v),
+        ValD::Opt(Some(v)) | ValD::Either(_, v) | ValD::Any(_, v) | ValD::Spread(_, v) => nodeless(v),
         _ => false,
     }
 }
@@ -877,6 +1163,15 @@ pub fn transition_tags(a: &ValD, b: &ValD, out: &mut BTreeSet<String>) {
         }
         (ValD::Keyed(xs), ValD::Keyed(ys)) => {
             out.insert(if xs == ys { "keyed-same" } else { "keyed-change" }.into());
+        }
+        (ValD::Spread(x, xv), ValD::Spread(y, yv)) => {
+            atags(x, y, out);
+            if let (ValD::Any(s, _), ValD::Any(t, _)) = (&**xv, &**yv) {
+                if s != t {
+                    out.insert("spread-any-type-change".into());
+                }
+            }
+            transition_tags(xv, yv, out);
         }
         _ => {
             out.insert("shape-mismatch".into());
